@@ -670,7 +670,7 @@ def ext_member(interp, ext, name):
 
 # ----------------------------------------------------------------------- install
 def install(interp):
-    from .interp import ExtType, Namespace, NamedTupleType, Partial, WeakRef, Finalizer, SymSeq, Obj, ClassV, Closure, BoundMethod, PropertyV, MISSING
+    from .interp import ExtType, Namespace, NamedTupleType, Partial, WeakRef, Finalizer, SymSeq, Obj, ClassV, Closure, BoundMethod, PropertyV, MISSING, CallableExt
 
     global _NN_MODULE
     E = ExtType
@@ -996,7 +996,8 @@ def install(interp):
 
     interp.namespaces["weakref"] = Namespace(
         "weakref",
-        dict(ref=lambda o: WeakRef(o), finalize=_finalize, WeakMethod=lambda bm: WeakMethodV(bm), ReferenceType=E("weakref.ReferenceType")),
+        dict(ref=lambda o: WeakRef(o), finalize=_finalize, WeakMethod=CallableExt("weakref.WeakMethod", lambda bm: WeakMethodV(bm)), ReferenceType=E("weakref.ReferenceType"),
+             WeakValueDictionary=CallableExt("weakref.WeakValueDictionary", lambda init=None: ModuleDictV(init, kind="WeakValueDictionary"))),
     )
     interp.namespaces["typing"] = Namespace("typing", {}, fallback=lambda n: E(n))
     interp.namespaces["abc"] = Namespace("abc", {"ABC": E("ABC"), "abstractmethod": lambda f: f})
